@@ -150,6 +150,10 @@ def generate(rng, tier, index):
             if op["want_fault"][1] == "oserror":
                 # an operating-system error at one step of the fix (possibly persistent)
                 op["want_fault"][2] = [rng.choice(["EPERM", "EACCES", "ENOSPC", "EIO"]), rng.random() < 0.5]
+                if rng.random() < 0.4:
+                    # the fixed content cannot be put in place, however often it is tried
+                    # (immutable file, foreign file in a sticky directory)
+                    op["want_fault"][2] = [rng.choice(["EPERM", "EACCES"]), True, "replace"]
             if "--continue-on-error" not in op["rt"]["argv"] and rng.random() < 0.7:
                 op["rt"]["argv"] = ["--continue-on-error"] + op["rt"]["argv"]
                 op["flags"] = ["--continue-on-error"] + op["flags"]
@@ -193,7 +197,9 @@ def _plan(sc, builtin_ids):
             if not sites:
                 continue
             replace_step = [s for s in sites if s[0].split("/")[1] in ("rename", "copymode", "chmod")]
-            if replace_step and fraction < 0.5:
+            if len(exc) > 2:
+                replace_step = [s for s in sites if s[0].split("/")[1] == "rename"] or replace_step
+            if replace_step and (fraction < 0.5 or len(exc) > 2):
                 # the step that puts the fixed content in place
                 site = replace_step[int(fraction * 2 * len(replace_step)) % len(replace_step)]
             else:
